@@ -425,15 +425,17 @@ func getDecl(p *parser, kind string) *token {
 	}
 	decl := symAtPos(p.Token.Pos, kind)
 	left := symAtPos(p.Token.Pos, ",")
+	var last *token
 	for {
-		left.Append(p.Advance("(name)"))
+		last = p.Advance("(name)")
+		left.Append(last)
 		if p.Token.Symbol != "," {
 			break
 		}
 		p.Advance(",")
 	}
 	decl.Append(left)
-	if p.Token.Symbol == ";" || p.Token.Symbol == ")" || p.Token.Pos.Line != left.Pos.Line {
+	if p.Token.Symbol == ";" || p.Token.Symbol == ")" || p.Token.Pos.Line != last.Pos.Line {
 		return decl
 	}
 	if p.Token.Symbol == "=" {
